@@ -4,8 +4,23 @@ import (
 	"sort"
 
 	"github.com/zenon-network/go-zenon/chain/nom"
+	"github.com/zenon-network/go-zenon/common/db"
 	"github.com/zenon-network/go-zenon/common/types"
 )
+
+// verifSortAddresses / verifSortedAddresses: the checker's build iterates the account pool's per-address map in sorted
+// order (see overlay/gen.py, MAP_ORDER), so that the same schedule always takes the same locks in the same order.
+func verifSortAddresses(a []types.Address) {
+	sort.Slice(a, func(i, j int) bool { return a[i].String() < a[j].String() })
+}
+func verifSortedAddresses(m map[types.Address]db.Manager) []types.Address {
+	out := make([]types.Address, 0, len(m))
+	for a := range m {
+		out = append(out, a)
+	}
+	verifSortAddresses(out)
+	return out
+}
 
 // Verification overlay only (never part of the repository): re-exports of unexported seams of the account pool.
 
